@@ -1,5 +1,142 @@
-(* placeholder while the proofs are being written *)
-From Mk Require Import Lib.Bytes Misc.Header.
-Example C17_stub : is_generated false [M1] = true.
-Proof. vm_compute. reflexivity. Qed.
-Print Assumptions C17_stub.
+(* C17 - Generated-file marker, boilerplate and build constraints are effective.
+   Only statements; proofs are in Misc/Header_proofs.v.  Model: Misc/Header.v
+     header f t bp tags        bytes the template + formatter f put before the package clause
+                               (t = testify | matryer; bp = content of boilerplate-file if set;
+                               tags = text of mock-build-tags if set)
+     file_lines f t bp tags p  the file's lines up to and including "package p"
+     is_generated              `go help generate`: ^// Code generated .* DO NOT EDIT\.$ before the
+                               first non-comment, non-blank text
+     should_build tags         go/build.parseFileHeader + shouldBuild + constraint.Parse/Eval
+     fmt_lines / place         go/printer on the header (gofmt and goimports)
+   Quantifiers: all boilerplate byte strings with [quiet b = true] (white space, // comments and
+   closed /* */ comments only - any number of lines, with or without trailing newline - and no
+   //go:build, // +build, //go:binary-only-package line outside block comments), every tag
+   text that Go's constraint parser accepts, both templates, all three formatters. *)
+From Mk Require Import Lib.Bytes Misc.Header Misc.Header_proofs.
+
+(* 1. The marker.  No hypothesis on the boilerplate bytes or on the tag text. *)
+Theorem C17_marker : forall f t bp tags pkg,
+  no_lf pkg = true -> is_generated false (file_lines f t bp tags pkg) = true.
+Proof. exact marker_present. Qed.
+Print Assumptions C17_marker.
+
+(* 2. The boilerplate.  Formatter noop: every byte string, verbatim, directly after the three
+   marker lines. *)
+Theorem C17_boilerplate_verbatim : forall t b tags,
+  header Noop t (Some b) tags =
+  (marker_text t ++ [LF]) ++ b ++
+  (match tags with Some x => LF :: LF :: GOBUILD ++ x20 :: x | None => [] end ++ [LF; LF]).
+Proof. exact boilerplate_verbatim_noop. Qed.
+Print Assumptions C17_boilerplate_verbatim.
+
+(* Formatters gofmt/goimports: verbatim for every text the printer leaves alone and does not
+   split (fmt_verbatim_guard).  Full statement (false, see the two _refuted lemmas below):
+     forall f t b tags, comment_only b = true -> exists pre post, header f t (Some b) tags = pre ++ b ++ post *)
+Theorem C17_boilerplate_verbatim_formatted : forall f t b tags,
+  fmt_verbatim_guard b = true -> exists pre post, header f t (Some b) tags = pre ++ b ++ post.
+Proof. exact boilerplate_verbatim_fmt. Qed.
+Print Assumptions C17_boilerplate_verbatim_formatted.
+
+(* known finding C17-formatter-rewrites-boilerplate: a blank line before a block comment makes
+   the printer move the constraint into the boilerplate; trailing white space is removed *)
+Theorem C17_boilerplate_verbatim_refuted :
+  (let b := B "// a" ++ [LF; LF] ++ B "/* b */" in
+   quiet b = true /\ fmt_verbatim_guard b = false /\
+   is_infix b (header Gofmt Testify (Some b) (Some (B "foo"))) = false /\
+   is_infix b (header Noop Testify (Some b) (Some (B "foo"))) = true) /\
+  (let b := B "// a " in
+   quiet b = true /\ fmt_verbatim_guard b = false /\
+   is_infix b (header Goimports Matryer (Some b) None) = false).
+Proof. split; [exact split_witness | exact trailing_ws_witness]. Qed.
+Print Assumptions C17_boilerplate_verbatim_refuted.
+
+Theorem C17_is_infix_spec : forall p s, is_infix p s = true <-> exists pre post, s = pre ++ p ++ post.
+Proof. exact is_infix_spec. Qed.
+Print Assumptions C17_is_infix_spec.
+
+(* 3. The constraint is effective: the go command's decision for the file equals the value of
+   the expression, for every tag set.  [e] is the expression Go's own parser reads from the
+   configured text [x].  Under a formatter the constraint is re-printed from [e]; the guards
+   exclude a negation applied directly to a negation (known finding
+   C17-gofmt-double-negation) and re-printed forms above the parser's size limit of 1000. *)
+Theorem C17_constraint_effective : forall f t bp x e pkg tags,
+  obp_quiet bp = true -> no_lf x = true -> no_lf pkg = true ->
+  parse_line (trim (gb_text x)) = LOk e ->
+  (is_noop f = false -> no_dneg e = true /\ small e = true) ->
+  should_build tags (file_lines f t bp (Some x) pkg) = of_bool (eval tags e).
+Proof. exact constraint_effective_parsed. Qed.
+Print Assumptions C17_constraint_effective.
+
+Theorem C17_constraint_effective_refuted_dneg :
+  let x := B "!(!foo)" in
+  exists e, parse_line (trim (gb_text x)) = LOk e /\ no_dneg e = false /\
+            should_build (fun _ => true) (file_lines Gofmt Testify None (Some x) (B "mocks")) = BadConstraint /\
+            should_build (fun _ => true) (file_lines Noop Testify None (Some x) (B "mocks")) = Included.
+Proof. exact dneg_witness. Qed.
+Print Assumptions C17_constraint_effective_refuted_dneg.
+
+(* known finding C17-boilerplate-constraint-line: comment-only for the lexer, but a second
+   constraint source (excluded by [quiet]) *)
+Theorem C17_constraint_effective_refuted_directive :
+  let b := B "//go:build bar" in
+  comment_only b = true /\ quiet b = false /\
+  should_build (fun _ => true) (file_lines Noop Testify (Some b) (Some (B "foo")) (B "mocks")) = MultipleGoBuild.
+Proof. exact directive_witness. Qed.
+Print Assumptions C17_constraint_effective_refuted_directive.
+
+Theorem C17_quiet_is_comment_only : forall b, quiet b = true -> comment_only b = true.
+Proof. exact quiet_comment_only. Qed.
+Print Assumptions C17_quiet_is_comment_only.
+
+(* without mock-build-tags the file is always included *)
+Theorem C17_no_constraint_included : forall f t bp pkg tags,
+  obp_quiet bp = true -> no_lf pkg = true -> should_build tags (file_lines f t bp None pkg) = Included.
+Proof. exact no_constraint_included. Qed.
+Print Assumptions C17_no_constraint_included.
+
+(* the documented form: the //go:build line is preceded only by blank lines and comments and
+   followed by a blank line *)
+Theorem C17_constraint_followed_by_blank : forall f t bp x pkg,
+  obp_quiet bp = true -> no_lf x = true -> no_lf pkg = true ->
+  gobuild_followed_by_blank false (file_lines f t bp (Some x) pkg) = true.
+Proof. exact constraint_followed_by_blank. Qed.
+Print Assumptions C17_constraint_followed_by_blank.
+
+(* "all expressions": every expression tree (tags, !, &&, ||) has a text - its Go String() -
+   that the go command reads back with the same meaning; with C17_constraint_effective the
+   file is then included exactly when the tree is satisfied.  (Structural induction over the
+   tree against the recursive-descent parser; the parser re-associates && and || chains.) *)
+Theorem C17_every_expression : forall e,
+  wf_tags e = true -> no_dneg e = true -> small e = true ->
+  no_lf (go_string e) = true /\
+  exists e', parse_line (trim (gb_text (go_string e))) = LOk e' /\
+             forall tags, eval tags e' = eval tags e.
+Proof. exact every_expression_has_a_text. Qed.
+Print Assumptions C17_every_expression.
+
+Theorem C17_constraint_effective_every_expression : forall f t bp e pkg tags,
+  obp_quiet bp = true -> no_lf pkg = true ->
+  wf_tags e = true -> no_dneg e = true -> small e = true ->
+  (forall e', parse_line (trim (gb_text (go_string e))) = LOk e' -> is_noop f = false -> no_dneg e' = true /\ small e' = true) ->
+  should_build tags (file_lines f t bp (Some (go_string e)) pkg) = of_bool (eval tags e).
+Proof.
+  intros f t bp e pkg tags Q Hp W D Sm G.
+  destruct (every_expression_has_a_text e W D Sm) as [NL [e' [P E]]].
+  rewrite (constraint_effective_parsed f t bp (go_string e) e' pkg tags Q NL Hp P (G e' P)). rewrite E. reflexivity.
+Qed.
+Print Assumptions C17_constraint_effective_every_expression.
+
+(* the parser's fuel is always sufficient: never OutOfFuel *)
+Theorem C17_parser_total : forall acc ts, or_from (fuel_for ts) acc ts <> PFuel.
+Proof. exact or_from_total. Qed.
+Print Assumptions C17_parser_total.
+
+(* Non-vacuity: a two-line boilerplate without trailing newline and a block comment meet all
+   guards; foo && !bar is included exactly under -tags foo *)
+Example C17_example :
+  let b := B "// Copyright X" ++ [LF] ++ B "/* second */" in
+  let f tags := should_build (fun t => smem t tags) (file_lines Goimports Matryer (Some b) (Some (B "foo&&!bar")) (B "mocks")) in
+  quiet b = true /\ fmt_verbatim_guard b = true /\
+  f [B "foo"] = Included /\ f [] = Excluded /\ f [B "foo"; B "bar"] = Excluded /\
+  parse_line (trim (gb_text (B "foo&&!bar"))) = LOk (And (Tag (B "foo")) (Not (Tag (B "bar")))).
+Proof. vm_compute. repeat split. Qed.
